@@ -38,6 +38,20 @@ NOOPS = ["add.0", "mul.1", "sub.0", "div.1", "u32shl.0", "u32rotl.0"]
 DECOS = [("emit", "emit.1"), ("trace", "trace.2"), ("dbg", "debug.stack"), ("adv", "adv.push_mapval"), ("comment", "# c\n ")]
 
 
+def isolated(c):
+    """GEN_Deco!Isolated; at top level a following tail operation is a neighbour of the body's last element"""
+    b = list(c["body"]) + (["O"] if c["wrap"] == "top" and c["tail"] == "O" else [])
+
+    def reach(i, d):
+        while 0 <= i < len(b) and b[i] == "D":
+            i += d
+        return b[i] if 0 <= i < len(b) else "end"
+    return any(e == "D" and reach(i, -1) in ("end", "C") and reach(i, 1) in ("end", "C") for i, e in enumerate(b))
+
+
+CBLOCK = "if.true neg end"       # a control-flow block: its neighbours in a body have no span to share with it
+
+
 def deco_programs(ck, thorough):
     """programs of GEN_Deco: (programs, groups) with groups[id] = (class of the erased base or None, classes of the variants, description)"""
     cfgp = os.path.join(workdir("C08"), "GEN_Deco.cfg")
@@ -51,7 +65,7 @@ def deco_programs(ck, thorough):
     def text(elems, deco):
         out = []
         for i, e in enumerate(elems):
-            out.append({"N": NOOPS[i % len(NOOPS)], "O": "swap" if i % 2 else "neg", "P": "push.7", "D": deco}[e])
+            out.append({"N": NOOPS[i % len(NOOPS)], "O": "swap" if i % 2 else "neg", "P": "push.7", "D": deco, "C": CBLOCK}[e])
         return " ".join(out)
 
     def wrap(w, body, tail):
@@ -66,7 +80,7 @@ def deco_programs(ck, thorough):
     for gi, c in enumerate(cases):
         # positions of N / O elements must not shift between a body and its erasure: render the erasure from the same indices
         idx = [i for i, e in enumerate(c["body"]) if e != "D"]
-        er = " ".join({"N": NOOPS[i % len(NOOPS)], "O": "swap" if i % 2 else "neg", "P": "push.7"}[c["body"][i]] for i in idx)
+        er = " ".join({"N": NOOPS[i % len(NOOPS)], "O": "swap" if i % 2 else "neg", "P": "push.7", "C": CBLOCK}[c["body"][i]] for i in idx)
         base = None
         if er:
             base = "deco:%d:base:off" % gi
@@ -80,7 +94,7 @@ def deco_programs(ck, thorough):
                     p["debug"] = True
                 progs.append(p)
                 members.append(cls)
-        groups[gi] = (base, members, {"wrap": c["wrap"], "body": c["body"], "tail": c["tail"]})
+        groups[gi] = (base, members, {"wrap": c["wrap"], "body": c["body"], "tail": c["tail"], "isolated": isolated(c) and bool(er)})
     return progs, groups
 
 
@@ -157,7 +171,7 @@ def mast_part(ck, wd, thorough):
         ngroups += 1
         for m, h in hs.items():
             if h != ref:
-                ck.violation("mast:deco:%s:%s" % (desc["wrap"], m.split(":")[-2]), "the program hash depends on decorators / debug mode: %s (variant %s) hashes differently from %s" % (
+                ck.violation("mast:%s:%s:%s" % ("deco-isolated" if desc.get("isolated") else "deco", desc["wrap"], m.split(":")[-2]), "the program hash depends on decorators / debug mode: %s (variant %s) hashes differently from %s" % (
                     json.dumps(desc), m, basecls or "the other variants"), {"kind": "mast", "variant": m, "group": desc})
                 break
     if ngroups < 300:
